@@ -2,7 +2,7 @@
 K3 growth initiators (who-may-call) / K4 cap guard, never shrinks / K5 constants and operators / K6 capacity 0 allocates nothing."""
 from fractions import Fraction
 
-from .affine import evaluator, Aff, TOP
+from .affine import facts_at, le_at, ne0_at, evaluator, evaluator_exact, floor_shift, Aff, TOP
 from .analysis import flow, cond_of, dominated_by_edge, reach, entry, Point, dominates
 from .anchors import callee_str, is_std_atomic, receiver_field, is_reclaim_atomic
 from .callgraph import callgraph
@@ -143,22 +143,29 @@ def rule_k2(ctx, facts):
                 for a in m.args:
                     if op_int(a) is not None:
                         min_const = op_int(a)
-            # guard: size >= MAX/2 -> MAX
-            guard = None
-            for blk in range(len(b.blocks)):
-                cd = cond_of(b, blk)
-                if cd and cd["kind"] == "cmp" and cd["op"] == "Ge":
-                    fb = ev.operand(cd["b"])
-                    fa = ev.operand(cd["a"])
-                    if fb is not TOP and fb.is_const() and fa is not TOP and dominated_by_edge(b, c.point, [(blk, cd["false"])]):
-                        guard = (fa, fb.c)
+            # guard: requests of MAX/2 and more skip the arithmetic (operator / operand order irrelevant)
             arg_sym = [s for s in (f.symbols() if f is not TOP else []) if s[0] == "arg"]
+            guard = None
+            if len(arg_sym) == 1:
+                for kind, lin, bound, blk in facts_at(b, c.point):
+                    if kind == "le" and lin.symbols() == {arg_sym[0]} and lin.coeff(arg_sym[0]) == 1:
+                        ub = bound - lin.c
+                        guard = ub if guard is None else min(guard, ub)
             ok = (f is not TOP and len(arg_sym) == 1 and f == Aff({arg_sym[0]: Fraction(3, 2)}, 1) and min_const == MAXCAP
-                  and guard is not None and guard[0] == Aff.sym(arg_sym[0]) and guard[1] == MAXCAP // 2)
-            desc = "next_power_of_two(%s), min with %s, large-request guard %s" % (
-                f.show(b) if f is not TOP else "?", min_const, ("%s >= %s" % (guard[0].show(b), guard[1])) if guard else None)
+                  and guard is not None and guard == MAXCAP // 2 - 1)
+            desc = "next_power_of_two(%s), min with %s, reached only for requests <= %s" % (
+                f.show(b) if f is not TOP else "?", min_const, guard)
             ctx.inst("K2", b, "capacity rounding", c.span, ok, desc if ok else "expected min(2^30, next_power_of_two(1.5*c + 1)) behind c >= 2^29; found " + desc)
             sibs.append((b, desc.replace(b.local_name(arg_sym[0][1]) or "", "c") if arg_sym else desc))
+    # a rounding that lives in a helper is one rounding used by each of its callers
+    if len(sibs) == 1:
+        hb, hd = sibs[0]
+        sites = [(cid, via) for cid, via in callgraph(facts).callers(hb.id) if hasattr(via, "point") and not facts.by_id[cid].is_cleanup(via.b)]
+        for cid, via in sites:
+            ctx.inst("K2", facts.by_id[cid], "capacity rounding through %s" % strip_generics(hb.id).rsplit("::", 1)[-1], via.span, True,
+                     "uses the shared rounding: %s" % hd)
+        if len(sites) >= 2:
+            ctx.inst("K2", hb, "sibling agreement presize/try_presize", hb.span, True, "both paths call the one rounding in %s" % strip_generics(hb.id))
     if len(sibs) >= 2:
         same = len({d for _, d in sibs}) == 1
         ctx.inst("K2", sibs[0][0], "sibling agreement presize/try_presize", sibs[0][0].span, same,
@@ -194,6 +201,27 @@ def rule_k2(ctx, facts):
                     ctx.inst("K2", b, "size_ctl restored", s.span, True, "writes back the value it read from size_ctl", nontrivial=False)
                     continue
                 ok = any(L is not TOP and f == L.scale(Fraction(3, 4)) for L in lens)
+                if ok:
+                    # exactly: L - floor(L / 4) over the integers (table lengths 1 and 2 exist: with_capacity(1), reserve(0))
+                    xe = evaluator_exact(b)
+                    fx = xe.operand(s.args[1]) if vl is not None else f
+                    if fx is not TOP and len(fx.symbols()) == 1 and next(iter(fx.symbols()))[0] == "phi" and fx.c == 0 \
+                            and fx.coeff(next(iter(fx.symbols()))) == 1:
+                        fxs = [g for _, g in xe.def_forms(next(iter(fx.symbols()))[1])]
+                    else:
+                        fxs = [fx]
+                    Lx = [xe.operand(c.args[0]) for c in news]
+                    want = [L2 - floor_shift(L2, 2) for L2 in Lx if L2 is not TOP]
+                    exact = [g for g in fxs if g is not TOP and not (len(g.symbols()) == 1 and g.c == 0 and all(
+                        k[0] == "call" and any(b.call_at(k[1]).b == l.b for l in sc_loads) for k in g.symbols()))]
+                    bad = [g for g in exact if g not in want]
+                    if bad:
+                        ok = False
+                        ctx.inst("K2", b, "size_ctl threshold", s.span, False,
+                                 "the stored threshold %s equals 3/4 of the length only when the length is a multiple of 4; over the integers it is not "
+                                 "L - floor(L/4) = %s: a table of 1 or 2 bins (with_capacity(1), reserve(0)) gets a threshold that its first insert already "
+                                 "reaches" % (bad[0].show(b), want[0].show(b) if want else "?"))
+                        continue
                 ctx.inst("K2", b, "size_ctl threshold", s.span, ok,
                          "threshold %s = 3/4 * new table length %s" % (f.show(b), [L.show(b) for L in lens if L is not TOP]) if ok else
                          "threshold stored after allocating a table is %s, not 3/4 of its length %s" % (f.show(b), [L.show(b) if L is not TOP else "?" for L in lens]))
@@ -229,20 +257,18 @@ def rule_k3_k4(ctx, facts):
             ok = b.id in allowed_init
             ctx.inst("K3", b, "initiates resize", c.span, ok, "allowed initiator" if ok else
                      "transfer(_, null) starts a resize outside add_count/try_presize: the table can grow without the count reaching the threshold")
-            # K4 cap guard
+            # K4 cap guard: some comparison dominating the call establishes  len <= MAXCAP - 1  for the length of the table being replaced
+            # (operator and operand order do not matter)
             guarded = False
-            for blk in range(len(b.blocks)):
-                cd = cond_of(b, blk)
-                if cd and cd["kind"] == "cmp" and cd["op"] in ("Ge", "Gt"):
-                    fb = ev.operand(cd["b"])
-                    if fb is not TOP and fb.is_const() and fb.c == MAXCAP:
-                        fa = ev.operand(cd["a"])
-                        from_len = fa is not TOP and any(s[0] == "call" and callee_str(b.call_at(s[1])).endswith("Table::len") for s in fa.symbols()) \
-                            or (fa is not TOP and any(s[0] == "phi" for s in fa.symbols()))
-                        if from_len and cd["op"] == "Ge" and dominated_by_edge(b, c.point, [(blk, cd["false"])]):
-                            guarded = True
+            for kind, lin, bound, blk in facts_at(b, c.point):
+                if kind != "le" or len(lin.symbols()) != 1:
+                    continue
+                s0 = next(iter(lin.symbols()))
+                is_len = (s0[0] == "call" and callee_str(b.call_at(s0[1])).endswith("Table::len")) or s0[0] == "phi"
+                if is_len and lin.coeff(s0) == 1 and bound - lin.c <= MAXCAP - 1:
+                    guarded = True
             ctx.inst("K4", b, "cap guard before initiating", c.span, guarded,
-                     "dominated by the false edge of len >= MAXIMUM_CAPACITY" if guarded else
+                     "a dominating comparison establishes len < MAXIMUM_CAPACITY" if guarded else
                      "a resize can be initiated without testing the table length against MAXIMUM_CAPACITY (2^30)")
     # who calls try_presize
     for b in facts.bodies:
@@ -263,12 +289,9 @@ def rule_k3_k4(ctx, facts):
                          "`additional` further ones" % (f.show(b) if f is not TOP else "a non-affine size"))
             elif b.name == "treeify_bin":
                 ok = False
-                for blk in range(len(b.blocks)):
-                    cd = cond_of(b, blk)
-                    if cd and cd["kind"] == "cmp" and cd["op"] == "Lt":
-                        fb = ev.operand(cd["b"])
-                        if fb is not TOP and fb.is_const() and fb.c == MINTREE and dominated_by_edge(b, c.point, [(blk, cd["true"])]):
-                            ok = True
+                for kind, lin, bound, blk in facts_at(b, c.point):
+                    if kind == "le" and len(lin.symbols()) == 1 and lin.coeff(next(iter(lin.symbols()))) == 1 and bound - lin.c == MINTREE - 1:
+                        ok = True
                 ctx.inst("K3", b, "try_presize from treeify_bin", c.span, ok,
                          "only in the len < MIN_TREEIFY_CAPACITY branch" if ok else "treeify_bin grows the table outside its len < 64 branch")
             else:
@@ -301,9 +324,10 @@ def rule_k3_k4(ctx, facts):
             neg = d is not TOP and d.is_const() and d.c < 0
             delta = d.show(b) if d is not TOP else "?"
             if b.name in ("clear", "replace_node"):
-                ok = hint == "None"
-                ctx.inst("K3", b, "removal passes no hint", c.span, ok, "add_count(%s, %s)" % (delta, hint) if ok else
-                         "removal path calls add_count(%s, %s): a removal may now trigger a resize" % (delta, hint))
+                # informational: with K1 (the compared value is what the RMW left in memory) a decrement cannot newly satisfy
+                # count >= size_ctl, so a hint on a removal path can at most run a resize that an earlier insert already made due --
+                # exactly what compute_if_present's removal arm does in the pinned code (mutant audit, DESIGN 6.5)
+                ctx.inst("K3", b, "removal path: add_count(%s, %s)" % (delta, hint), c.span, True, "no clause depends on the hint of a removal")
             else:
                 ctx.inst("K3", b, "add_count(%s, %s)" % (delta, hint), c.span, True, "insert / compute path", nontrivial=False)
     # K4 never shrinks: what is stored into HashMap.table
@@ -353,36 +377,44 @@ def rule_k5(ctx, facts):
     put = facts.body("HashMap::put")
     ev = evaluator(put)
     tre = facts.body("HashMap::treeify_bin")
-    found = False
-    for blk in range(len(put.blocks)):
-        cd = cond_of(put, blk)
-        if cd and cd["kind"] == "cmp":
-            fb = ev.operand(cd["b"])
-            if fb is not TOP and fb.is_const() and fb.c == facts.const("TREEIFY_THRESHOLD"):
-                calls = [c for c in put.calls if c.resolved == tre.id]
-                ok = cd["op"] == "Ge" and calls and all(dominated_by_edge(put, c.point, [(blk, cd["true"])]) for c in calls)
-                found = True
-                ctx.inst("K5", put, "bin_count >= TREEIFY_THRESHOLD", put.term(blk)["span"], ok,
-                         "treeify_bin is called exactly when bin_count >= 8" if ok else "treeify/overflow test uses %s" % cd["op"])
-    if not found:
-        ctx.fail_closed("K5: comparison with TREEIFY_THRESHOLD not found in put")
+    TT = facts.const("TREEIFY_THRESHOLD")
+    calls = [c for c in put.calls if c.resolved == tre.id and not put.is_cleanup(c.b)]
+    if not calls:
+        ctx.fail_closed("K5: no call of treeify_bin in put")
+    for c in calls:
+        low = None
+        for kind, lin, bound, blk in facts_at(put, c.point):
+            # -x + c0 <= bound  <=>  x >= c0 - bound
+            if kind == "le" and len(lin.symbols()) == 1 and lin.coeff(next(iter(lin.symbols()))) == -1:
+                lb = lin.c - bound
+                low = lb if low is None else max(low, lb)
+        ok = low is not None and low >= TT
+        ctx.inst("K5", put, "treeify only for an overfull bin", c.span, ok,
+                 "treeify_bin is reached only with a bin count >= %s (TREEIFY_THRESHOLD = %s)" % (low, TT) if ok else
+                 "treeify_bin (which grows a table shorter than 64) is reached with a bin count that may be as low as %s < TREEIFY_THRESHOLD = %s" % (low, TT))
     ac = facts.body("HashMap::add_count")
     ev = evaluator(ac)
     tr = facts.body("HashMap::transfer")
     sc_loads = find_size_ctl_loads(ac)
-    found = False
-    for blk in range(len(ac.blocks)):
-        cd = cond_of(ac, blk)
-        if cd and cd["kind"] == "cmp" and cd["op"] in ("Lt", "Le", "Gt", "Ge"):
-            fb = ev.operand(cd["b"])
-            if fb is not TOP and any(s[0] == "call" and any(l.b == s[1] for l in sc_loads) for s in fb.symbols()):
-                calls = [c for c in ac.calls if c.resolved == tr.id]
-                ok = cd["op"] == "Lt" and all(dominated_by_edge(ac, c.point, [(blk, cd["false"])]) for c in calls)
-                found = True
-                ctx.inst("K5", ac, "count < size_ctl stops", ac.term(blk)["span"], ok,
-                         "resizing only when count >= size_ctl" if ok else "threshold comparison is %s" % cd["op"])
-    if not found:
-        ctx.fail_closed("K5: comparison of count with size_ctl not found in add_count")
+    calls = [c for c in ac.calls if c.resolved == tr.id and not ac.is_cleanup(c.b)]
+    if not calls:
+        ctx.fail_closed("K5: add_count does not call transfer")
+    for c in calls:
+        ok = False
+        seen_sc = False
+        for kind, lin, bound, blk in facts_at(ac, c.point):
+            if kind != "le":
+                continue
+            scs = [s0 for s0 in lin.symbols() if s0[0] == "call" and any(l.b == s0[1] for l in sc_loads)]
+            others = [s0 for s0 in lin.symbols() if s0 not in scs]
+            if len(scs) == 1 and len(others) == 1 and lin.coeff(scs[0]) == 1 and lin.coeff(others[0]) == -1:
+                seen_sc = True
+                if bound - lin.c == 0:
+                    ok = True
+        ctx.inst("K5", ac, "resize only at count >= size_ctl", c.span, ok,
+                 "the transfer call is dominated by a comparison establishing count >= size_ctl" if ok else
+                 ("the comparison of the count with size_ctl that guards this transfer call is not `count >= size_ctl`" if seen_sc else
+                  "no comparison of the count with size_ctl dominates this transfer call"))
 
 
 def rule_k6(ctx, facts):
@@ -390,17 +422,10 @@ def rule_k6(ctx, facts):
     wc = facts.body("HashMap::with_capacity_and_hasher")
     presize = facts.body("HashMap::presize")
     ev = evaluator(wc)
-    ok = False
     calls = [c for c in wc.calls if c.resolved == presize.id]
-    for blk in range(len(wc.blocks)):
-        cd = cond_of(wc, blk)
-        if cd and cd["kind"] == "cmp" and cd["op"] == "Eq":
-            fa, fb = ev.operand(cd["a"]), ev.operand(cd["b"])
-            if fa is not TOP and fb is not TOP and fa == Aff.sym(("arg", 1)) and fb.is_const() and fb.c == 0:
-                if calls and all(dominated_by_edge(wc, c.point, [(blk, cd["false"])]) for c in calls):
-                    ok = True
+    ok = bool(calls) and all(ne0_at(wc, c.point, Aff.sym(("arg", 1))) is not None for c in calls)
     ctx.inst("K6", wc, "presize only when capacity != 0", wc.span, ok,
-             "presize is dominated by the false edge of capacity == 0" if ok else "with capacity 0 the constructor can reach presize (allocates a table)")
+             "every call of presize is dominated by a comparison establishing capacity != 0" if ok else "with capacity 0 the constructor can reach presize (allocates a table)")
     newt = [b.id for b in facts.bodies if b.sid.endswith("raw::Table::new") or b.sid.endswith("raw::Table::from")]
     for name in ("HashMap::with_hasher", "HashMap::new", "<map::HashMap<K, V, S> as std::default::Default>::default"):
         bs = facts.find(name) or [b for b in facts.bodies if b.id == name]
